@@ -69,6 +69,8 @@ VSETS = {
 ALLSETS = dict(SETS, **VSETS)
 BACKENDS = ["virtual", "zip", "vpk", "raw"]
 PREFIXES = ["", "a", "ab"]
+# the same subfolders as a caller may spell them when mounting (trailing slash, other letter case); model side: PREFIXES
+PREFIX_SPELL = {"": ["", "a", "ab"], "slash": ["", "a/", "ab/"], "case": ["", "A", "Ab"]}
 POOLS = {
     "vzk": [("virtual", "mix"), ("zip", "pre"), ("vpk", "dup")],
     "kvz": [("vpk", "mix"), ("virtual", "dup"), ("zip", "dup")],
@@ -434,10 +436,13 @@ def _pick(lst, idx):
     assume(False)
 
 
-def _chain(pool, k, ms, xs, ps, ctor):
+def _chain(pool, k, ms, xs, ps, ctor, spell=""):
     """build the real chain and the model list [(member index, backend, set, prefix)] from the history"""
     import srctools.filesys as fsm
     members = POOLS[pool]
+    SP = PREFIX_SPELL[spell]
+    if spell == "case":
+        assume(all(b != "raw" for b, _s in members))     # the directory backend is case sensitive on POSIX: no claim
     model = []
     hist = []
     for i in range(k):
@@ -448,17 +453,17 @@ def _chain(pool, k, ms, xs, ps, ctor):
         args = []
         for mi, xi, _pr in hist:
             b, s = members[mi]
-            args.append((_fs(b, s), PREFIXES[xi]) if PREFIXES[xi] else _fs(b, s))
+            args.append((_fs(b, s), SP[xi]) if PREFIXES[xi] else _fs(b, s))
             model.append((mi, b, s, PREFIXES[xi]))
         return fsm.FileSystemChain(*args), model
     chain = fsm.FileSystemChain()
     for mi, xi, pr in hist:
         b, s = members[mi]
         if pr:
-            chain.add_sys(_fs(b, s), PREFIXES[xi], priority=True)
+            chain.add_sys(_fs(b, s), SP[xi], priority=True)
             model.insert(0, (mi, b, s, PREFIXES[xi]))
         else:
-            chain.add_sys(_fs(b, s), PREFIXES[xi])
+            chain.add_sys(_fs(b, s), SP[xi])
             model.append((mi, b, s, PREFIXES[xi]))
     return chain, model
 
@@ -532,21 +537,21 @@ def _run_chain_walk(chain, model, p, n):
     return flat
 
 
-def _chain_args(q, n, m0, m1, m2, m3, x0, x1, x2, x3, p0, p1, p2, p3, k, pool, ctor):
+def _chain_args(q, n, m0, m1, m2, m3, x0, x1, x2, x3, p0, p1, p2, p3, k, pool, ctor, spell=""):
     assume(len(q) == n)
     _alpha(q)
-    return _chain(pool, k, [m0, m1, m2, m3], [x0, x1, x2, x3], [p0, p1, p2, p3], ctor)
+    return _chain(pool, k, [m0, m1, m2, m3], [x0, x1, x2, x3], [p0, p1, p2, p3], ctor, spell)
 
 
 def h_chain_lookup(q: str, m0: int, m1: int, m2: int, m3: int, x0: int, x1: int, x2: int, x3: int,
-                   p0: bool, p1: bool, p2: bool, p3: bool, n: int, k: int, pool: str, ctor: bool = False) -> None:
-    chain, model = _chain_args(q, n, m0, m1, m2, m3, x0, x1, x2, x3, p0, p1, p2, p3, k, pool, ctor)
+                   p0: bool, p1: bool, p2: bool, p3: bool, n: int, k: int, pool: str, ctor: bool = False, spell: str = "") -> None:
+    chain, model = _chain_args(q, n, m0, m1, m2, m3, x0, x1, x2, x3, p0, p1, p2, p3, k, pool, ctor, spell)
     _run_chain_lookup(chain, model, q, n)
 
 
 def h_chain_lookup_w(q: str, m0: int, m1: int, m2: int, m3: int, x0: int, x1: int, x2: int, x3: int,
-                     p0: bool, p1: bool, p2: bool, p3: bool, n: int, k: int, pool: str, ctor: bool = False) -> None:
-    chain, model = _chain_args(q, n, m0, m1, m2, m3, x0, x1, x2, x3, p0, p1, p2, p3, k, pool, ctor)
+                     p0: bool, p1: bool, p2: bool, p3: bool, n: int, k: int, pool: str, ctor: bool = False, spell: str = "") -> None:
+    chain, model = _chain_args(q, n, m0, m1, m2, m3, x0, x1, x2, x3, p0, p1, p2, p3, k, pool, ctor, spell)
     want = _run_chain_lookup(chain, model, q, n)
     # reachability: the answer comes from a member that is not the first in the chain
     if want is not None and k >= 2 and _lookup(model[0][2], model[0][3], q, n) is None:
@@ -554,14 +559,14 @@ def h_chain_lookup_w(q: str, m0: int, m1: int, m2: int, m3: int, x0: int, x1: in
 
 
 def h_chain_walk(q: str, m0: int, m1: int, m2: int, m3: int, x0: int, x1: int, x2: int, x3: int,
-                 p0: bool, p1: bool, p2: bool, p3: bool, n: int, k: int, pool: str, ctor: bool = False) -> None:
-    chain, model = _chain_args(q, n, m0, m1, m2, m3, x0, x1, x2, x3, p0, p1, p2, p3, k, pool, ctor)
+                 p0: bool, p1: bool, p2: bool, p3: bool, n: int, k: int, pool: str, ctor: bool = False, spell: str = "") -> None:
+    chain, model = _chain_args(q, n, m0, m1, m2, m3, x0, x1, x2, x3, p0, p1, p2, p3, k, pool, ctor, spell)
     _run_chain_walk(chain, model, q, n)
 
 
 def h_chain_walk_w(q: str, m0: int, m1: int, m2: int, m3: int, x0: int, x1: int, x2: int, x3: int,
-                   p0: bool, p1: bool, p2: bool, p3: bool, n: int, k: int, pool: str, ctor: bool = False) -> None:
-    chain, model = _chain_args(q, n, m0, m1, m2, m3, x0, x1, x2, x3, p0, p1, p2, p3, k, pool, ctor)
+                   p0: bool, p1: bool, p2: bool, p3: bool, n: int, k: int, pool: str, ctor: bool = False, spell: str = "") -> None:
+    chain, model = _chain_args(q, n, m0, m1, m2, m3, x0, x1, x2, x3, p0, p1, p2, p3, k, pool, ctor, spell)
     flat = _run_chain_walk(chain, model, q, n)
     if len(flat) != len(set(name for name, _d in flat)):
         raise Fail("reached")        # some name is present in two members: de-duplication had work to do
@@ -646,9 +651,11 @@ def obligations(tier):
         sl += [dict(_hist(2, True, True, True, {"m0": m0, "x0": 1}), n=2, k=2, pool="vzk") for m0 in range(3)]
         sl += [dict(_hist(1, True, True, True), n=n, k=1, pool=pool) for n in (2, 3) for pool in POOLS]
         sl += chain_slices(["bvz"], (2,), (1,), ())
+        sl += [dict(d, spell=sp) for sp in ("slash", "case") for d in chain_slices(["vzk"], (1,), (1, 2), ())]
     else:
         sl = chain_slices(list(POOLS), (1, 2, 3), (0, 1, 2, 3), (1,))
         sl += chain_slices(["vzk"], (4,), (), (1,))[:6]
+        sl += [dict(d, spell=sp) for sp in ("slash", "case") for d in chain_slices(["vzk", "kvz"], (1, 2), (1, 2), ())]
     for pool in POOLS:
         sl.append(dict(_hist(3, True, False, False, {"x0": 0, "x1": 1, "x2": 2}), n=1, k=3, pool=pool, ctor=True))
     obls.append(Obl("chain_lookup", MOD, "h_chain_lookup", slices=_kf(sl, "chain_lookup"), budget_s=900 if quick else 3000, per_path_s=30,
@@ -658,9 +665,11 @@ def obligations(tier):
         wsl = chain_slices(["vzk", "kvz"], (1, 2), (0, 1), ())
         wsl += chain_slices(["vzk", "kvz"], (3,), (), (0,))[::2]
         wsl += chain_slices(["bvz"], (1, 2), (0, 1), ())
+        wsl += [dict(d, spell=sp) for sp in ("slash", "case") for d in chain_slices(["vzk"], (1,), (0, 1), ())]
     else:
         wsl = chain_slices(["vzk", "kvz", "bvz"], (1, 2, 3), (0, 1, 2, 3), (0, 1))
         wsl += chain_slices(["kvz"], (4,), (), (0,))[:6]
+        wsl += [dict(d, spell=sp) for sp in ("slash", "case") for d in chain_slices(["vzk", "kvz"], (1, 2), (0, 1), ())]
     obls.append(Obl("chain_walk", MOD, "h_chain_walk", slices=wsl, budget_s=900 if quick else 3000, per_path_s=30,
                     desc="walk_folder_repeat lists every member's files inside the folder (relative to the member's subfolder) in chain "
                          "order; walk_folder lists each folded name once with the first member's content; every listed name looks up",
